@@ -525,4 +525,28 @@ theorem stuck_final {c : Cfg} (hb : Base c) (hq : QL c) (hc : Ctl c) (hil : ILoc
     · exact nCP h
     · exact hnd h
 
+/-! ### the number of pool tasks is fixed -/
+
+theorem nProd_reachable {c0 c : Cfg} (h : Reachable F c0 c) : c.nProd = c0.nProd := by
+  induction h with
+  | init => rfl
+  | step _ hs ih =>
+    obtain ⟨t, ht, hk⟩ := step_inv hs
+    obtain ⟨t', hths, -⟩ := step_frame ht hk
+    rw [← ih]
+    simp [Cfg.nProd, hths]
+
+theorem nProd_init (cap bm mw : Nat) (ns : Option Nat) (soe : Bool) (inputs : List (List Item))
+    (prods : List ProdSpec) : (init cap bm mw ns soe inputs prods).nProd = prods.length := by
+  simp [Cfg.nProd, init]
+
+/-- all four invariants at once, for every configuration reachable from `init` -/
+theorem invs_reachable {cap bm mw : Nat} {ns : Option Nat} {soe : Bool} {inputs : List (List Item)}
+    {prods : List ProdSpec} {c : Cfg} (h : Reachable F (init cap bm mw ns soe inputs prods) c) :
+    Base c ∧ QL c ∧ Ctl c ∧ ILockInv c :=
+  have hb0 := base_init cap bm mw ns soe inputs prods
+  ⟨base_reachable hb0 h, ql_reachable hb0 (ql_init cap bm mw ns soe inputs prods) h,
+   ctl_reachable hb0 (ctl_init cap bm mw ns soe inputs prods) h,
+   ilock_reachable (ilock_init cap bm mw ns soe inputs prods) h⟩
+
 end MlModel.Piter
